@@ -84,10 +84,10 @@ pub fn convert_node(ast: &ASTTy, imp: &mut Imports, state: &State, ctx: &Context
             string: lit.clone(),
         },
         NodeTy::Str { lit, expressions } if expressions.is_empty() => Core::Str {
-            string: lit.clone(),
+            string: single_line(lit),
         },
         NodeTy::Str { lit, .. } => Core::FStr {
-            string: lit.clone(),
+            string: single_line(lit),
         },
 
         NodeTy::Undefined => Core::None,
@@ -327,6 +327,11 @@ pub fn convert_node(ast: &ASTTy, imp: &mut Imports, state: &State, ctx: &Context
     };
 
     Ok(core)
+}
+
+/// A string may span lines in the source; a Python string between single quotes may not.
+fn single_line(string: &str) -> String {
+    string.replace('\r', "\\r").replace('\n', "\\n")
 }
 
 /// Python rejects a decimal integer with leading zeros (`007`); the sign of an exponent is kept.
